@@ -76,13 +76,34 @@ def collect_fails(results):
     return out
 
 
+def group_by_signature(items, signature):
+    """signature(chk, e) returns either a string, or (key, features): then the events of one key form one group and the
+    signature is the key plus the features that have the same value in every event of the group."""
+    groups, feats = {}, {}
+    for (chk, e) in items:
+        s = signature(chk, e)
+        if isinstance(s, tuple):
+            key, f = s
+            feats.setdefault(key, []).append(f)
+        else:
+            key = s
+        groups.setdefault(key, []).append((chk, e))
+    out = {}
+    for key, evs in groups.items():
+        sig = key
+        if key in feats:
+            fl = feats[key]
+            common = [(k, fl[0][k]) for k in sorted(fl[0]) if all(f.get(k) == fl[0][k] for f in fl)]
+            sig = key + ":" + (",".join("%s=%s" % kv for kv in common) or "any")
+        out[sig] = evs
+    return out
+
+
 def triage(ctx, results, module, signature, reexec, describe, max_report=10, rank=None):
     """Every distinct signature among the FAIL lines (at most max_report of them) is re-executed once (reexec(event, path)
     writes a one-line trace) and re-validated; only a divergence that reproduces with the same check is reported."""
     fails = collect_fails(results)
-    by_sig = {}
-    for (f, ln, chk, e) in fails:
-        by_sig.setdefault(signature(chk, e), []).append((chk, e))
+    by_sig = group_by_signature([(chk, e) for (_f, _ln, chk, e) in fails], signature)
     ctx.count("tv_fail_lines", len(fails))
     if not fails:
         return 0
